@@ -164,6 +164,38 @@ def random_regexp(rng, ops, syms, p_zero=0.12, p_one=0.15):
     return R.Sum(l, r) if c < 0.65 else R.Concat(l, r)
 
 
+def related_regexps(rng, syms):
+    """trees built from a small random r and a near-copy r2 of it (operands swapped, a leaf changed):
+    the shapes on which absorption / idempotence style rewrite rules fire"""
+    from gambatools import regexp as R
+    import copy
+
+    def mutate(x):
+        x = copy.deepcopy(x)
+        nodes = []
+
+        def walk(n):
+            nodes.append(n)
+            if isinstance(n, R.Iteration):
+                walk(n.operand)
+            elif isinstance(n, (R.Sum, R.Concat)):
+                walk(n.left)
+                walk(n.right)
+        walk(x)
+        n = rng.choice(nodes)
+        if isinstance(n, (R.Sum, R.Concat)):
+            n.left, n.right = n.right, n.left
+        elif isinstance(n, R.Symbol):
+            n.symbol = rng.choice(syms)
+        return x
+
+    r = random_regexp(rng, rng.choice([0, 1, 1, 2, 2, 3]), syms, 0.05, 0.08)
+    r2 = mutate(r) if rng.random() < 0.7 else copy.deepcopy(r)
+    St, Su, Ca = R.Iteration, R.Sum, R.Concat
+    return [Su(St(r), r2), Su(r2, St(r)), Ca(St(r), St(r2)), Su(r, r2), Ca(r, r2), St(Su(r, r2)), Su(St(r), St(r2)),
+            Ca(St(r), r2), Ca(r2, St(r)), St(Ca(r, r2)), Su(Ca(r, r2), Ca(r2, r)), Su(Su(r, r2), r)]
+
+
 # ------------------------------------------------------------------ CFG
 def make_cfg(rules, start=None, V=None, Sigma=None, eps="ε"):
     """rules: list of (lhs, rhs-string); upper case = variable, lower = terminal"""
